@@ -441,6 +441,7 @@ func probes(c *TableCase) [][]rune {
 		}
 	}
 	var ends []rune
+	shared := false
 	for _, e := range c.Rules {
 		switch e.Kind {
 		case "class", "any":
@@ -449,7 +450,45 @@ func probes(c *TableCase) [][]rune {
 			}
 		case "lit":
 			ends = append(ends, []rune(e.Lit)...)
+		case "seq":
+			shared = true
 		}
+	}
+	if shared {
+		// shared-class cases: rules are [prefix literal] class [suffix literal]; probe every
+		// prefix x (class end point -1/0/+1) x suffix combination
+		var pre, suf [][]rune
+		var mid []rune
+		pre, suf = append(pre, nil), append(suf, nil)
+		for _, e := range c.Rules {
+			kids := e.Kids
+			if e.Kind != "seq" {
+				kids = []*lexm.Expr{e}
+			}
+			for k, kid := range kids {
+				switch {
+				case kid.Kind == "lit" && k == 0:
+					pre = append(pre, []rune(kid.Lit))
+				case kid.Kind == "lit":
+					suf = append(suf, []rune(kid.Lit))
+				default:
+					for _, r := range kid.Set {
+						for d := rune(-1); d <= 1; d++ {
+							mid = append(mid, r.Lo+d, r.Hi+d)
+						}
+					}
+				}
+			}
+		}
+		for _, p := range pre {
+			for _, m := range mid {
+				for _, s := range suf {
+					x := append(append(append([]rune(nil), p...), m), s...)
+					add(x)
+				}
+			}
+		}
+		return out
 	}
 	ends = append(ends, 0, lexm.MaxRune)
 	for _, e := range ends {
@@ -690,6 +729,56 @@ func TestC15(t *testing.T) {
 		want := min(batch, n3-done)
 		fc := run.Check(fmt.Sprintf("tables-%d", done), want, 1, func(rt *rapid.T, fail ev.FailFunc) {
 			tc := &TableCase{}
+			if rapid.IntRange(0, 3).Draw(rt, "shared") == 0 {
+				// a handful of ranges over a small alphabet, each used by several rules and at
+				// several places (after a prefix, before a suffix): the same range is owned by many
+				// automaton states and is cut again and again by its neighbours
+				var pool []*lexm.Expr
+				mk := func(lo, hi rune) *lexm.Expr {
+					return &lexm.Expr{Kind: "class", Set: []lexm.Rng{{Lo: lo, Hi: hi}}}
+				}
+				// a laminar family: a base range, cut into two parts, one of the parts cut again, ...
+				lo0 := rune('a' + rapid.IntRange(0, 3).Draw(rt, "lo"))
+				pool = append(pool, mk(lo0, lo0+rune(rapid.IntRange(3, 9).Draw(rt, "w"))))
+				for i, n := 0, rapid.IntRange(1, 4).Draw(rt, "ncut"); i < n; i++ {
+					src := pool[rapid.IntRange(0, len(pool)-1).Draw(rt, "cutsrc")].Set[0]
+					if src.Hi == src.Lo {
+						continue
+					}
+					at := src.Lo + rune(rapid.IntRange(0, int(src.Hi-src.Lo)-1).Draw(rt, "cutat"))
+					switch rapid.IntRange(0, 2).Draw(rt, "cutkeep") {
+					case 0:
+						pool = append(pool, mk(src.Lo, at), mk(at+1, src.Hi))
+					case 1:
+						pool = append(pool, mk(src.Lo, at))
+					default:
+						pool = append(pool, mk(at+1, src.Hi))
+					}
+				}
+				for i, n := 0, rapid.IntRange(0, 2).Draw(rt, "npool"); i < n; i++ {
+					lo := rune('a' + rapid.IntRange(0, 9).Draw(rt, "lo2"))
+					pool = append(pool, mk(lo, lo+rune(rapid.IntRange(0, 5).Draw(rt, "w2"))))
+				}
+				for i, n := 0, rapid.IntRange(3, 10).Draw(rt, "nr"); i < n; i++ {
+					e := &lexm.Expr{Kind: "seq"}
+					if k := rapid.IntRange(0, 3).Draw(rt, "pre"); k > 0 {
+						e.Kids = append(e.Kids, &lexm.Expr{Kind: "lit", Lit: string(rune('0' + k))})
+					}
+					e.Kids = append(e.Kids, pool[rapid.IntRange(0, len(pool)-1).Draw(rt, "cls")])
+					if k := rapid.IntRange(0, 3).Draw(rt, "suf"); k > 0 {
+						e.Kids = append(e.Kids, &lexm.Expr{Kind: "lit", Lit: string("!?#"[k-1])})
+					}
+					if len(e.Kids) == 1 {
+						e = e.Kids[0]
+					}
+					tc.Rules = append(tc.Rules, e)
+				}
+				// at least one sequence so that the probes take the combinational path
+				tc.Rules = append(tc.Rules, &lexm.Expr{Kind: "seq", Kids: []*lexm.Expr{{Kind: "lit", Lit: "0"}, pool[0]}})
+				run.Class("level3:shared-range-specs")
+				cases = append(cases, tc)
+				return
+			}
 			for i, n := 0, rapid.IntRange(2, 6).Draw(rt, "n"); i < n; i++ {
 				if rapid.IntRange(0, 2).Draw(rt, "lit") == 0 {
 					tc.Rules = append(tc.Rules, lexgen.GenLitAny(rt))
